@@ -285,6 +285,19 @@ gets its retry admitted at 13 < 20 + 2 -/
 example : (Runner.run C06.cfg1 C06.pol2k (Runner.init C06.cfg1 initState 10 (some C06.ev1) none)
       [.drain, .advance 1, .workerDone 3 0 [.failed 7 20], .drain, .drain, .advance 2, .timer, .drain]).log.map (·.2) = [10, 11, 11, 13] := by decide
 
+/-- (repair b50f853) a failure reported in the same result list AFTER a stale `AddCollectedEvent` already scheduled the
+execution to run again is skipped whole: no policy call, no retry queued, the record and the state untouched — the
+invocation is re-run once, not re-run AND retried -/
+theorem C06_failure_of_rescheduled_execution_skipped (cfg : Cfg) (pol : Engine.Policy) (step : Nat) (tickEv : Ev) (dc : Bool)
+    (acc : ResAcc) (exc : Nat) (failedAt : Int) (h : acc.stillInProgress = true) :
+    (applyRes cfg pol step tickEv dc acc (.failed exc failedAt)).cmds = acc.cmds ∧
+      (applyRes cfg pol step tickEv dc acc (.failed exc failedAt)).exec.retryRec = acc.exec.retryRec ∧
+      (applyRes cfg pol step tickEv dc acc (.failed exc failedAt)).stillInProgress = true := by
+  simp [applyRes, h]
+example : (processStepResult C06.cfg (fun _ _ k _ => .retry k) 3 0 C06.exec.ev
+      [.addCollected 0 { ty := 5, kind := .plain, uid := 1 }, .failed 7 13] C06.st 13).2 =
+    [.runWorker 3 { ty := 5, kind := .plain, uid := 1 } 0] := by decide
+
 /-! ## which link / which exponent answers for the k-th retry, for all chains, parameters and retry numbers
 
 `C06_delay_index_actual` says the engine evaluates the wait strategy at the failure number `k`.  What that means for the
